@@ -537,7 +537,7 @@ def check_edges(ctx, cases, pool):
 
 
 def run(ctx):
-    n = 28 if ctx.quick() else 300
+    n = 40 if ctx.quick() else 300
     cases = gen_cases(ctx, n)
     suspects = model_search(ctx, 1500 if ctx.quick() else 60000)
     for s in suspects[:6]:
